@@ -23,3 +23,4 @@ CFG = dict(
      level_note="Trusts the Go runtime, std/x crypto primitives, rapid and the reference implementation used to build and dissect documents. "
                 "The listed known finding (header-only truncation of a non-empty document) is excluded by construction and re-checked from its pinned input.",
      timeout_quick=600, timeout_thorough=2400)
+CFG["rule"] += ' Added after independently written breaking changes: Source faults are sticky or one-shot (the error comes from ONE Read call, as with bufio.Reader), alone or together with data; the encrypting direction is covered too (a failing plaintext source must fail the ciphertext stream).'
